@@ -598,6 +598,16 @@ func (c *handlerCtx) bindReply(header Header) interface{} {
 
 	// unlock: handleReply
 	c.callCmd.mu.Lock()
+	select {
+	case <-c.callCmd.doneChan:
+		// completed while this reply waited for the call's mutex (duplicate reply,
+		// or the caller's own write failed): a call completes only once
+		c.callCmd.mu.Unlock()
+		c.callCmd = nil
+		Warnf("not found call cmd: %v", c.input)
+		return nil
+	default:
+	}
 	verifGate("reply.bound", c.sess)
 	c.input.SetServiceMethod(c.callCmd.output.ServiceMethod())
 	c.swap = c.callCmd.swap
